@@ -204,6 +204,9 @@ func (A *Analysis) fresh(like *Atom) AtomID {
 }
 
 func (A *Analysis) linString(l *Lin) string {
+	if l == nil {
+		return "<its value on entry (not tracked)>"
+	}
 	s := ""
 	for _, a := range l.atoms() {
 		c := l.T[a]
